@@ -192,7 +192,7 @@ func rewriteStmt(s ast.Stmt) []ast.Stmt {
 	case *ast.SendStmt:
 		rewriteFuncLits(v.Value)
 		g := headerRecvs(v.Value)
-		return append(append(g, call("BeforeSend", v.Chan)), v)
+		return append(append(g, call("BeforeSend", v.Chan)), v, call("AfterSend", v.Chan))
 	case *ast.ExprStmt:
 		rewriteFuncLits(v.X)
 		if c, ok := v.X.(*ast.CallExpr); ok {
@@ -348,6 +348,57 @@ func rewriteStmt(s ast.Stmt) []ast.Stmt {
 	return []ast.Stmt{s}
 }
 
+// rewriteMakes: make(chan T[, n]) -> vrt.Chan(make(chan T, vrt.Cap(n)), n).(chan T)
+func rewriteMakes(f *ast.File) {
+	done := map[*ast.CallExpr]bool{}
+	var fix func(e *ast.Expr)
+	fix = func(e *ast.Expr) {
+		c, ok := (*e).(*ast.CallExpr)
+		if !ok || !isMakeChan(c) || done[c] {
+			return
+		}
+		var n ast.Expr = &ast.BasicLit{Kind: token.INT, Value: "0"}
+		if len(c.Args) > 1 {
+			n = c.Args[1]
+		}
+		typ := c.Args[0]
+		mk := &ast.CallExpr{Fun: ast.NewIdent("make"), Args: []ast.Expr{typ, &ast.CallExpr{Fun: &ast.SelectorExpr{X: ast.NewIdent("vrt"), Sel: ast.NewIdent("Cap")}, Args: []ast.Expr{n}}}}
+		done[mk] = true
+		*e = &ast.TypeAssertExpr{X: &ast.CallExpr{Fun: &ast.SelectorExpr{X: ast.NewIdent("vrt"), Sel: ast.NewIdent("Chan")}, Args: []ast.Expr{mk, n}}, Type: typ}
+	}
+	ast.Inspect(f, func(n ast.Node) bool {
+		switch v := n.(type) {
+		case *ast.AssignStmt:
+			for i := range v.Rhs {
+				fix(&v.Rhs[i])
+			}
+		case *ast.ValueSpec:
+			for i := range v.Values {
+				fix(&v.Values[i])
+			}
+		case *ast.CallExpr:
+			if !isMakeChan(v) {
+				for i := range v.Args {
+					fix(&v.Args[i])
+				}
+			}
+		case *ast.ReturnStmt:
+			for i := range v.Results {
+				fix(&v.Results[i])
+			}
+		case *ast.KeyValueExpr:
+			fix(&v.Value)
+		case *ast.CompositeLit:
+			for i := range v.Elts {
+				fix(&v.Elts[i])
+			}
+		case *ast.SendStmt:
+			fix(&v.Value)
+		}
+		return true
+	})
+}
+
 // exits: os.Exit(n) -> vrt.Exit(n); log.Fatal*(…) -> vrt.Fatal(…)
 func rewriteExits(f *ast.File) {
 	ast.Inspect(f, func(n ast.Node) bool {
@@ -426,6 +477,7 @@ func main() {
 			}
 		}
 		rewriteExits(f)
+		rewriteMakes(f)
 		for _, d := range f.Decls {
 			switch v := d.(type) {
 			case *ast.FuncDecl:
